@@ -80,6 +80,8 @@ func c14ExprSrc(e c14Expr) string {
 		return fmt.Sprintf("%s == '%s'", e.V, e.L.S)
 	case "cat":
 		return fmt.Sprintf("%s + '%s'", e.V, e.L.S)
+	case "max", "min": // a call with two arguments: a comma inside parentheses
+		return fmt.Sprintf("%s(%s, %d)", e.F, e.V, e.L.I)
 	case "lit":
 		switch e.L.K {
 		case "bool":
@@ -130,6 +132,15 @@ func c14Eval(e c14Expr, vars map[string]TV) (TV, bool) {
 			return TV{}, false
 		}
 		return tvS(v.S + e.L.S), true
+	case "max", "min":
+		v := get()
+		if v.K != "int" || e.L == nil {
+			return TV{}, false
+		}
+		if (e.F == "max") == (v.I > e.L.I) {
+			return tvI(int(v.I)), true
+		}
+		return tvI(int(e.L.I)), true
 	case "lit":
 		if e.L == nil {
 			return TV{}, false
@@ -277,6 +288,7 @@ func c14Atoms() []c14Atom {
 		add(st("style", "display:-webkit-box;display:flex;width:1px"))
 		add(st("style", "color: blue; display: none"))
 		add(st("style", "display: inline-block"))
+		add(st("style", "background:url(data:image/png;base64,AAAA); color: blue"))
 		add(st("data-j", ""))
 		add(c14Attr{K: "static", N: "disabled", Bare: true})
 		// interpolated
@@ -318,6 +330,8 @@ func c14Atoms() []c14Atom {
 		add(c14Attr{K: "cobj", P: ":", N: "class", Sp: true, Ents: []c14Ent{ent("g", "", *c14Op("gt", "v$", tvI(3))), ent("q-r", "'", *c14Op("eq", "w$", tvS("x"))), ent("neg", "", c14Expr{F: "not", V: "u$"})}}, "v$", tvI(5), "w$", tvS("x"), "u$", tvB(true))
 		add(c14Attr{K: "cobj", P: ":", N: "class", Ents: []c14Ent{ent("a1", "", *c14EVar("v$")), ent("a2", "", *c14EPath("w$")), ent("a3", "", *c14EVar("u$"))}}, "v$", tvS("x,y"), "w$", tvS("p:q"), "u$", tvMissing())
 		add(c14Attr{K: "cobj", P: ":", N: "class", Ents: []c14Ent{ent("dq", `"`, *c14EVar("v$")), ent("lit", "", c14Lit(tvS("s")))}}, "v$", tvB(true))
+		add(c14Attr{K: "cobj", P: ":", N: "class", Ents: []c14Ent{ent("md:flex", "'", *c14EVar("v$")), ent("hover:bg-red", `"`, *c14EVar("w$")), ent("plain", "", *c14EVar("v$"))}}, "v$", tvB(true), "w$", tvB(false))
+		add(c14Attr{K: "cobj", P: ":", N: "class", Ents: []c14Ent{ent("mx", "", *c14Op("max", "v$", tvI(2))), ent("mn", "", *c14Op("min", "w$", tvI(3))), ent("after", "", *c14EVar("u$"))}}, "v$", tvI(0), "w$", tvI(0), "u$", tvB(true))
 		// bound style
 		add(bd(":", "style", c14EVar("v$")), "v$", tvS("color: red; width: 1px"))
 		add(bd(":", "style", c14EVar("v$")), "v$", tvS(""))
@@ -917,12 +931,38 @@ func c14Interp(s string, vars map[string]TV) string {
 	return b.String()
 }
 
+// c14SplitDecls splits a style value at the semicolons that end a declaration:
+// not those inside parentheses (url(data:image/png;base64,...)) or quotes.
+func c14SplitDecls(s string) []string {
+	var out []string
+	depth, quote, start := 0, byte(0), 0
+	for i := 0; i < len(s); i++ {
+		ch := s[i]
+		switch {
+		case quote != 0:
+			if ch == quote {
+				quote = 0
+			}
+		case ch == '"' || ch == '\'':
+			quote = ch
+		case ch == '(':
+			depth++
+		case ch == ')' && depth > 0:
+			depth--
+		case ch == ';' && depth == 0:
+			out = append(out, s[start:i])
+			start = i + 1
+		}
+	}
+	return append(out, s[start:])
+}
+
 // c14Decls parses a style attribute value into an ordered declaration list
 // (later duplicates override, as in CSS).
 func c14Decls(s string) ([]string, map[string]string) {
 	var keys []string
 	vals := map[string]string{}
-	for _, part := range strings.Split(s, ";") {
+	for _, part := range c14SplitDecls(s) {
 		part = strings.TrimSpace(part)
 		if part == "" {
 			continue
@@ -1332,8 +1372,19 @@ func c14Compare(r *c14Rec, el *oracle.N, w c14Want, path string) {
 					if gb[t] < n {
 						if sb[t] > 0 {
 							sig = "class/static-token-lost"
-						} else if sig != "class/static-token-lost" {
+						} else if !strings.HasPrefix(sig, "class/static-token-lost") {
 							sig = "class/bound-token-missing"
+							// what is special about the object literal, if anything
+							for _, a := range r.c.Attrs {
+								for _, e := range a.Ents {
+									if a.K == "cobj" && (e.E.F == "max" || e.E.F == "min") {
+										sig = "class/bound-token-missing/call-with-comma-in-object"
+									}
+								}
+							}
+							if strings.Contains(t, ":") {
+								sig = "class/bound-token-missing/key-with-colon"
+							}
 						}
 					}
 				}
